@@ -13,8 +13,9 @@ EXPLANATION = (
     'singleton): false implies UTC (C19-out). A default-constructed time_zone carries a null Impl '
     'which effective_impl maps to the UTC singleton, and equality compares effective Impls '
     '(C19-null). local_time_zone and fixed_time_zone return the zone load_time_zone wrote, with no '
-    'later write (C19-local). Impl(name) stores the requested name and Name() returns it '
-    '(C19-name). The environment variables consulted and the default paths are the ones the '
+    'later write (C19-local). Impl(name) stores the requested name and Name() returns it, '
+    'and every lookup in / insertion into the name cache made by the loader is keyed by the very name the Impl is built '
+    'with, so two spellings never share an entry (C19-name). The environment variables consulted and the default paths are the ones the '
     'property names, and an empty/unset TZDIR keeps the default (C19-env). Does not decide the '
     'file-system resolution matrix itself.')
 LEVEL = ('Path-insensitive-free structural proof (all paths of four small functions) of the "failure means UTC" '
@@ -365,6 +366,8 @@ def run(ctx):
     ctx.check(len(rets) == 1 and Keys(u).key(kids(rets[0])[0]) == 'this.effective_impl().Name()', 'C19-name',
               'time_zone::name() forwards to the effective Impl', f,
               'time_zone::name() does not report the effective Impl\'s name', construct='tz-name')
+    # the cache hands back the Impl that was built for the very name asked for
+    loader.check_cache_key(ctx, 'C19-name')
 
     # ---- C19-env: the variables and defaults named by the property
     want_env = {'TZDIR': 'cctz::FileZoneInfoSource::Open', 'TZ': 'cctz::local_time_zone',
